@@ -20,6 +20,7 @@ filter called with the rule exactly for rule-level scenarios, Feature.rules gets
 errors pass through untouched; (R3b) the stream given to Runner::run is exactly parser output mapped by that
 closure; (R4) `--tags` conflicts with `--name` in the clap definition.
 Not decided: regex semantics, tag-expression parsing.
+Added after the second seeded round: (R5) the filters given through with_cli() survive every later Cucumber builder call and clone(): path tables of the builder methods (cli = self.cli, or set from a parameter, or reset only where parser / runner / writer is replaced by a parameter) and of Cucumber::clone.
 """
 DECLINED = ["regex matching semantics", "parsing of tag expressions (gherkin crate)"]
 ASSUMPTIONS = ["Iterator::filter(..).collect::<Vec<_>>() keeps the relative order of retained items"]
